@@ -1,4 +1,5 @@
 import SplinkVerif.Lemmas.CC
+import SplinkVerif.Generated.Arith
 /-!
 # C05 — clusters are exactly the connected components of the thresholded graph
 
@@ -69,6 +70,31 @@ theorem threshold_filter {α : Type} (ge : α → α → Bool) (thr : Option α)
     cases thr with
     | none => rfl
     | some t => simpa using hk t rfl
+
+/-- **A threshold that is given is applied** — about the *translated* `threshold_args_to_match_prob`
+(`Generated/Arith.lean`, regenerated from `splink/internals/misc.py` on every run), for every number type
+and every value, boundary values (weight `0`, probability `0`) included: a probability is passed through, a
+match weight `w` becomes `2^w / (1 + 2^w)` and is never dropped, no argument means no threshold, both
+arguments raise. -/
+theorem threshold_args_applied {α : Type} [ANum α] (p w : α) :
+    Gen.threshold_args_to_match_prob (some p) none = some (some p) ∧
+    Gen.threshold_args_to_match_prob none (some w) =
+      some (some (ANum.div (ANum.pow2 w) (ANum.add (ANum.ofNat 1) (ANum.pow2 w)))) ∧
+    Gen.threshold_args_to_match_prob (none : Option α) none = some none ∧
+    Gen.threshold_args_to_match_prob (some p) (some w) = none :=
+  ⟨rfl, rfl, rfl, rfl⟩
+
+/-- …hence with a weight threshold the clustering never sees "no threshold": edges below `2^w/(1+2^w)` are
+removed (composition of `threshold_args_applied` with `threshold_filter`'s `thresholdEdges`). -/
+theorem weight_threshold_filters {α : Type} [ANum α] (ge : α → α → Bool) (w : α)
+    (edges : List (Nat × Nat × α)) (e : Edge)
+    (h : e ∈ thresholdEdges ge ((Gen.threshold_args_to_match_prob none (some w)).getD none) edges) :
+    ∃ q, (e.1, e.2, q) ∈ edges ∧
+      ge q (ANum.div (ANum.pow2 w) (ANum.add (ANum.ofNat 1) (ANum.pow2 w))) = true := by
+  rw [(threshold_args_applied w w).2.1] at h
+  simp only [Option.getD_some, thresholdEdges, List.mem_map, List.mem_filter] at h
+  obtain ⟨x, ⟨hx, hge⟩, rfl⟩ := h
+  exact ⟨x.2.2, hx, hge⟩
 
 /-- Non-vacuity: a concrete 6-node graph (path 5–3–1 with a worst-case id
 order, an edge 0–4, node 2 isolated) meets the hypotheses and clusters as expected. -/
